@@ -9,6 +9,8 @@ e  refinement: midpoint of the closest points; _closest_points_on_segments_2d: n
 
 b (added)  'chain' cloud separating greedy matching from mutual nearest neighbours
 c (added)  the limit is tested on the reported mismatch itself (guard on the path); cached requests are keyed by the options (hv.memo)
+
+c-options (round 3)  search radius, delta-v limit and ballistic tolerance of the call reach the backend request (create_problem + to_backend_inputs interpreted)
 """
 from __future__ import annotations
 
